@@ -174,7 +174,10 @@ pub fn cases(s: &Sig, cap: usize) -> Vec<(Val, Val)> {
         .collect()
 }
 
-fn spread(v: Vec<Val>, cap: usize) -> Vec<Val> {
+/// At most `cap` values spread over the alphabet, the *last* (largest: 300-byte string, longest
+/// list, alternating bit pattern) first, so that a single case is never the degenerate one.
+fn spread(mut v: Vec<Val>, cap: usize) -> Vec<Val> {
+    v.reverse();
     if v.len() <= cap {
         return v;
     }
